@@ -66,11 +66,11 @@ class Fusion:
 
         # Get the temporal ranks in all loop orders before the first spatial
         # rank
-        fused_ranks: List[str]
-        if space_ranks:
-            fused_ranks = loop_ranks[:loop_ranks.index(space_ranks[0])]
-        else:
-            fused_ranks = loop_ranks
+        fused_ranks: List[str] = []
+        for rank in loop_ranks:
+            if rank in space_ranks:
+                break
+            fused_ranks.append(rank)
 
         # Get the components used for this Einsum
         components_used = set()
